@@ -219,3 +219,26 @@ def switch_edges_on_call_result(body, call_pos):
 
 def fmt_pos(body, pos):
     return '%s @%s' % (body.short, body.where(pos))
+
+
+def resolve_place(body, pl, depth=6):
+    """rewrite a place that starts with a deref of a local holding `&place` (or the result of Index::index /
+    Deref::deref on such a reference) into the underlying place."""
+    if depth == 0 or not is_local_op(pl):
+        return pl
+    if pl['p'] and pl['p'][0] == '*':
+        ds = defs_of(body, pl['l'])
+        if len(ds) == 1:
+            pos, st = ds[0]
+            if st['k'] == 'assign' and st['rv']['k'] in ('ref', 'rawptr'):
+                inner = resolve_place(body, st['rv']['pl'], depth - 1)
+                return {'l': inner['l'], 'p': inner['p'] + pl['p'][1:]}
+            if st['k'] == 'assign' and st['rv']['k'] == 'use' and is_local_op(st['rv']['o']):
+                inner = resolve_place(body, {'l': st['rv']['o']['l'], 'p': st['rv']['o']['p'] + ['*']}, depth - 1)
+                return {'l': inner['l'], 'p': inner['p'] + pl['p'][1:]}
+            if st['k'] == 'call' and call_matches(st, r'Index(Mut)?<.*>::index(_mut)?$|Deref(Mut)?>::deref(_mut)?$|::as_(mut_)?slice$|::first$|::get$|::get_mut$|::iter$') and st['args'] and is_local_op(st['args'][0]):
+                a = st['args'][0]
+                inner = resolve_place(body, {'l': a['l'], 'p': a['p'] + ['*']}, depth - 1)
+                extra = ['[?]'] if 'ndex' in (st['f'].get('fn') or '') else []
+                return {'l': inner['l'], 'p': inner['p'] + extra + pl['p'][1:]}
+    return pl
